@@ -73,16 +73,32 @@ func genPlan(rng *rand.Rand, ci int) claimPlan {
 				ps.Volume = []string{"pvc", "pvc", "ephemeral"}[rng.Intn(3)]
 				ps.Detach = []int{0, 1, 3, 8, -1, -1}[rng.Intn(6)]
 			}
-			if ps.Kind == "succeeded" && ps.Volume == "" {
+			if ps.Kind == "succeeded" && (ps.Volume == "" || ps.Detach >= 0) {
 				// a completed pod whose object lingers keeps its claim: the attachment of its volume blocks like any
 				// other drainable pod's (no PRNG draw, so the rest of the plan is unchanged; seeded change C09-e)
 				ps.Volume = "pvc"
-				ps.Detach = []int{-1, 8}[i%2]
+				ps.Detach = -1
 			}
 			if ps.Kind == "pdb" {
 				p.PDB = true
 			}
 			p.Pods = append(p.Pods, ps)
+		}
+		// a plan with a completed pod gets a drain that finishes early (no PRNG draw): the pods that would hold the node
+		// for minutes become plain drainable ones, so that the node reaches the volume wait while the completed pod's
+		// attachment is still there (seeded change C09-e)
+		hasSucceeded := false
+		for _, ps := range p.Pods {
+			hasSucceeded = hasSucceeded || ps.Kind == "succeeded"
+		}
+		if hasSucceeded {
+			p.PDB = false
+			for i := range p.Pods {
+				switch p.Pods[i].Kind {
+				case "term-long", "stuck", "sticky", "dnd", "pdb":
+					p.Pods[i].Kind = "drainable"
+				}
+			}
 		}
 		p.Inline = rng.Intn(5) == 0
 	}
